@@ -50,3 +50,42 @@ def keyed(a: int, b: int = 0) -> int:
 def scripted(name: str, x: int = 0) -> Any:
     """Body fully controlled by the harness: HOOKS['script'](name, x) returns or raises."""
     return _hook("script", name, x)
+
+
+# ---------------------------------------------------------------------------
+# C05: bodies that return / raise catalogue values (the value never travels as an argument)
+# ---------------------------------------------------------------------------
+import enum as _enum
+
+
+class Color(_enum.Enum):
+    RED = "red"
+    BLUE = 2
+
+
+class Level(_enum.IntEnum):
+    LOW = 1
+    HIGH = 7
+
+
+class UserError(Exception):
+    """A user-defined (non-builtin, non-pynenc) exception with two arguments."""
+
+
+CATALOGUE: dict[str, list] = {"result": [], "exception": []}
+
+
+def produce(kind: str, idx: int, attempt_ok: int = 1) -> Any:
+    """Returns CATALOGUE['result'][idx] or raises CATALOGUE['exception'][idx].
+    attempt_ok > 1: raise RetryError on earlier attempts (counted through HOOKS['attempts'])."""
+    n = HOOKS.setdefault("attempts", {}).get((kind, idx), 0) + 1
+    HOOKS["attempts"][(kind, idx)] = n
+    _hook("body", "produce", (kind, idx, n))
+    _hook("point", "produce", (kind, idx))
+    if n < attempt_ok:
+        from pynenc.exceptions import RetryError
+
+        raise RetryError(f"attempt {n}")
+    if kind == "result":
+        return CATALOGUE["result"][idx]
+    raise CATALOGUE["exception"][idx]
